@@ -11,6 +11,7 @@ from fractions import Fraction as Fr
 
 logging.disable(logging.CRITICAL)
 
+import reposhim  # noqa: E402,F401  (no effect unless ATSIM_REPO names a scratch copy)
 import atsim.potentials  # noqa: E402
 from atsim.potentials.config._common import ConfigurationException  # noqa: E402
 
@@ -120,7 +121,12 @@ def potable_subprocess(cfg_text, args=(), env=None, binary=False, timeout=120):
         e = dict(os.environ)
         if env:
             e.update(env)
-        p = subprocess.run(["/venv/bin/potable", cfg, out] + list(args), capture_output=True, text=True, env=e, timeout=timeout)
+        if os.environ.get("ATSIM_REPO"):
+            shim = "import sys; sys.path.insert(0, %r); import reposhim; from atsim.potentials.tools.potable import main; sys.argv[0] = 'potable'; main()" % os.path.dirname(os.path.abspath(__file__))
+            cmd = ["/venv/bin/python", "-c", shim, cfg, out]
+        else:
+            cmd = ["/venv/bin/potable", cfg, out]
+        p = subprocess.run(cmd + list(args), capture_output=True, text=True, env=e, timeout=timeout)
         content = None
         if os.path.exists(out):
             with open(out, "rb" if binary else "r") as f:
